@@ -144,4 +144,18 @@ PROPS = {
                                   "the Euclidean main loop of SignOfDet2x2 and the fold over edges are validated by the exact oracle, not yet by a theorem"],
         assumptions=["ordinates on integer grids up to 2^26 (differences exact) or exactly representable dyadic maps of them; no NaN"],
     ),
+    "C12": dict(
+        modules=["GeomVerif.Properties.C12"],
+        n_quick=20000, n_thorough=200000, thorough_seeds=3, min_theorems=3,
+        rule="every ordered pair of non-degenerate segments on the 3x3 integer grid (5184 pairs, exhaustive, each run; thorough adds the 4x4 grid, "
+             "57600 pairs) + random pairs on grids 4/8/64/2^20 in seven configurations (random, touching at an endpoint, T-junction, collinear "
+             "overlapping, collinear touching, parallel, collinear disjoint), in either order and direction, half with an arbitrary extra ordinate; a "
+             "quarter mapped to moderate floats within +-2 ulps (classification only). Observed: robust type + reported points (bit patterns) and the "
+             "non-robust HasIntersection. Oracle: exact rational intersection of the two point sets. non-trivial = all",
+        nontrivial=lambda op, inp: True,
+        trusted_base=TB_COMMON + ["modelled: RobustLineIntersector (orientation from C10 taken as exact), hcoords, centralendpoint, normalisation, envelope fallback "
+                                  "(bit-exact Float mirror), NonRobustLineIntersector's type decision",
+                                  "rounding distance of the computed point is measured against the exact point with tolerance 1e-9*scale (not proved)"],
+        assumptions=["segments of non-zero length; no NaN"],
+    ),
 }
